@@ -40,9 +40,9 @@ static void checkAll(int base) {
   size_t active = 0;
   for (I* b : t.getBlocks()) { bool on = chain.contains(b); verif_check(b->hasFlags(BLOCK_ACTIVE) == on, base + 8); if (on) { verif_check(b->isValid(), base + 9); active++; } }
   verif_check(t.appliedBlockCount == active, base + 10);
-  // VBK tree == bootstrap + the context carried by the active chain (blocks 2,3 in ALT 2; block 4 in ALT 3)
+  // VBK tree == bootstrap + the context carried by the active chain (blocks 2,3 in ALT 2; block 4 in ALT 3 and in ALT 4)
   int tipId = tip->getHash()[0];
-  bool has2 = isDesc(2, tipId), has3 = isDesc(3, tipId);
+  bool has2 = isDesc(2, tipId), has3 = isDesc(3, tipId) || isDesc(4, tipId);
   size_t expectVbk = 1 + (has2 ? 2 : 0) + (has3 ? 1 : 0);
   verif_check(t.vbk().getBlocks().size() == expectVbk, base + 11);
 }
@@ -55,7 +55,7 @@ extern "C" __attribute__((noinline)) void h_realinv() {
   bool withAtv = verif_cbool();
   { PopData pd; pd.context = {w.vbkById[2], w.vbkById[3]}; t.acceptBlock(altHash(2), pd); }
   { PopData pd; pd.context = {w.vbkById[4]}; t.acceptBlock(altHash(3), pd); }
-  { PopData pd; if (withAtv) pd.atvs.push_back(makeATV(w, 2, 2, 3, 1)); t.acceptBlock(altHash(4), pd); }
+  { PopData pd; pd.context = {w.vbkById[4]}; if (withAtv) pd.atvs.push_back(makeATV(w, 2, 2, 3, 1)); t.acceptBlock(altHash(4), pd); }   // the sibling fork block carries the SAME VBK block: one payload id, two containing blocks
   { PopData pd; t.acceptBlock(altHash(5), pd); }
   { ValidationState s; verif_check(t.setState(altHash((uint8_t)verif_choice(2, 5)), s), 1); }
   checkAll(100);
@@ -73,7 +73,7 @@ extern "C" __attribute__((noinline)) void h_realinv() {
       fprintf(stderr, "reannounce x=%d acc=%d ni=%p state=%s deleted=%d status=%x\n", x, (int)acc, (void*)ni, hs.toString().c_str(), ni ? (int)ni->isDeleted() : -1, ni ? ni->getStatus() : 0);
 #endif
       verif_check(acc ? (ni != nullptr && ni->isValid()) : (ni == nullptr || !ni->isValid()), 8);   // refused headers are either unknown or known-invalid (a removed block remembers its FAILED marks)
-      if (ni) { removed[x] = false; PopData pd; if (x == 2) pd.context = {w.vbkById[2], w.vbkById[3]}; if (x == 3) pd.context = {w.vbkById[4]}; t.acceptBlock(altHash(x), pd); verif_cover(4); }
+      if (ni) { removed[x] = false; PopData pd; if (x == 2) pd.context = {w.vbkById[2], w.vbkById[3]}; if (x == 3 || x == 4) pd.context = {w.vbkById[4]}; t.acceptBlock(altHash(x), pd); verif_cover(4); }
       checkAll(200 + 100 * k);
       continue;
     }
